@@ -78,22 +78,24 @@ def rate_oracle(ctx, sp, pa):
     us = M.unit_secs(g.get('unit', 'h'))
     tz = g.get('tz')
     for a, r in zip(sp['assets'], pa['assets']):
-        if r['status'] != 'ok' or a.get('freq') or a.get('periodicity'):
+        if r['status'] != 'ok' or a.get('periodicity'):
             continue
+        coarse = bool(a.get('freq'))
         P = r['problem']
         lo = M.inst(a['start'], tz) if a.get('start') else None
         hi = M.inst(a['end'], tz) if a.get('end') else None
         steps = [t for t in range(len(pts) - 1) if (lo is None or lo <= pts[t]) and (hi is None or pts[t] < hi)]
         elapsed = sum(pts[t + 1] - pts[t] for t in steps) / us
         bad = None
-        if a['kind'] == 'SimpleContract' and isinstance(a.get('max_cap'), (int, float)) and isinstance(a.get('min_cap'), (int, float)) and len(P['u']) == len(steps):
+        if a['kind'] == 'SimpleContract' and isinstance(a.get('max_cap'), (int, float)) and isinstance(a.get('min_cap'), (int, float)) and (coarse or len(P['u']) == len(steps)) and len(P['u']) <= len(steps):
             if abs(sum(P['u']) - a['max_cap'] * elapsed) > 1e-9 * (1 + abs(a['max_cap'] * elapsed)) or abs(sum(P['l']) - a['min_cap'] * elapsed) > 1e-9 * (1 + abs(a['min_cap'] * elapsed)):
                 bad = {'sum of upper limits': sum(P['u']), 'max_cap x elapsed time': a['max_cap'] * elapsed, 'sum of lower limits': sum(P['l']), 'min_cap x elapsed time': a['min_cap'] * elapsed}
-        elif a['kind'] == 'Transport' and len(P['u']) == len(steps):
+        elif a['kind'] == 'Transport' and (coarse or len(P['u']) == len(steps)):
             if abs(sum(P['u']) - a['max_cap'] * elapsed) > 1e-9 * (1 + abs(a['max_cap'] * elapsed)):
                 bad = {'sum of upper limits': sum(P['u']), 'max_cap x elapsed time': a['max_cap'] * elapsed}
         elif a['kind'] == 'Storage' and steps and not a.get('no_simult_in_out') and a.get('max_store_duration') is None:
-            n = len(steps)
+            sep = a.get('eff_in', 1.0) != 1.0 or bool(a.get('cost_in')) or bool(a.get('cost_out')) or len(a['nodes']) == 2
+            n = len(P['l']) // 2 if sep else len(P['l'])
             tot_in = -sum(P['l'][:n])
             if abs(tot_in - a['cap_in'] * elapsed) > 1e-9 * (1 + a['cap_in'] * elapsed):
                 bad = {'sum of charge limits': tot_in, 'cap_in x elapsed time': a['cap_in'] * elapsed}
@@ -126,6 +128,8 @@ def run(ctx):
             for key in ('max_take', 'min_take'):
                 a.pop(key, None)
     specs += cal
+    from props.C13 import calendar_specs, claim_domain
+    specs += [claim_domain(sp) for sp in calendar_specs(ctx.seed, 6 if ctx.tier == 'quick' else 30, 'c12coarse_') if sp['grid']['freq'] == 'h']
     for sp in specs:
         # holding durations strictly between two step boundaries: a comparison "elapsed <= duration" must not sit on a boundary,
         # where re-expressing the duration in another unit (division by 24 or 60 in floating point) could flip it by rounding
